@@ -331,6 +331,14 @@ pub fn run_history(out: &mut Out, rng: &mut Rng, h: &History) {
         rp["ops"].as_array_mut().unwrap().push(op.json());
         // C14: the Simulation query issued in the same state right before the swap
         let quote = if let Op::Swap { i, x, .. } = &op { Some(w.simulate(*i, *x)) } else { None };
+        if let (Some(q), Op::Swap { i, x, .. }) = (&quote, &op) {
+            // correspondence of the query path itself (Stable2Quotes.simulate2 on the state the model reaches by the same history)
+            let input = format!("(({}, ({}, {}), ({}, {}, {}), ({}, {})), {}, ({}, {}))", h.amp, h.dp.0, h.dp.1, h.fees.0, h.fees.1, h.fees.2,
+                                coqbool(h.kinds[0]), coqbool(h.kinds[1]), coqlist(&items), i, x);
+            let o: Vec<String> = match q { Ok(s) => vec!["0".into(), s.return_amount.to_string(), s.spread_amount.to_string(), s.swap_fee_amount.to_string(),
+                                                         s.protocol_fee_amount.to_string(), s.burn_fee_amount.to_string()], Err(_) => vec!["1".into()] };
+            out.case("c14_sim2", &input, &o, rp.clone());
+        }
         let r = exec(&mut w, &op);
         let after = snap(&w);
         out.count(&format!("pool:{}:{}", op.kind(), match &r { Ok(_) => "ok", Err(e) => if fail_class(e).is_none() { "panic" } else { "rejected" } }));
